@@ -41,6 +41,7 @@ CONSTANTS
   FixDel = FALSE
   FixInit = FALSE
   PreAcked = TRUE
+  Bursts = FALSE
   Sync = FALSE
 VIEW view
 INVARIANTS TypeOK Refines
